@@ -2,6 +2,8 @@
   C02 — Every value-array encoding is lossless and reports the right row count.
 -/
 import Sbdf.ValueArray
+import Sbdf.Lemmas.ReadsVA
+import Sbdf.Lemmas.WSpec
 namespace Sbdf.C02
 
 /-! ### run-length encoding -/
@@ -229,6 +231,22 @@ theorem bit_lossless_bool (c : Cfg) (o : Obj) (va : VA) (ht : o.tid = 1)
       rw [ih (fun e he => hl e (by simp [he]))]
       rcases hl x (by simp) with h | h <;> subst h <;> rfl
   exact this elems h01
+
+/-! ### the same after the encoded array has been written to a stream and read back -/
+
+/-- writing any encoded array and reading the bytes back returns the very same encoded array
+    (whatever follows in the stream), so decoding after write + read gives what decoding before
+    gave: the three statements above also hold through the stream -/
+theorem stream_roundtrip (c : Cfg) (va : VA) (hf : va.Fits c) (hw : va.Writable) :
+    ∃ bytes, Emits (writeVA c va) bytes ∧ Reads (readVA c) bytes va ∧ Reads (skipVA c) bytes () :=
+  ⟨Spec.va c va, emits_va c va hw, reads_va c va hf, reads_skipVA c va hf⟩
+
+theorem stream_roundtrip_values (c : Cfg) (va : VA) (hf : va.Fits c) (hw : va.Writable) (rest : Bytes) :
+    ∃ bytes p, Emits (writeVA c va) bytes ∧ readVA c (bytes ++ rest).toArray 0 = .ok (va, p) ∧ p = bytes.length := by
+  obtain ⟨bytes, h1, h2, _⟩ := stream_roundtrip c va hf hw
+  have := h2 [] rest
+  simp only [List.nil_append, List.length_nil, Nat.zero_add] at this
+  exact ⟨bytes, bytes.length, h1, this, rfl⟩
 
 /-- non-vacuity, including the empty array that motivated the repair of the encoder -/
 example : createRle ⟨2, []⟩ = .ok (.rle 0 [] ⟨2, []⟩) ∧
